@@ -137,7 +137,8 @@ Definition calc_fixed (a : auction) (bs : list bid) : minfo :=
      mi_alloc := fun u => sumZ (map (sell_amount (a_pay_denom a)) (filter (fun b => N.eqb (b_bidder b) u) bs));
      mi_refund := fun _ => 0 |}.
 
-(* the oracle: a sweep order is valid when it is the auction's bids rearranged, prices non-increasing *)
+(* the oracle: a sweep order is valid when it is the auction's bids rearranged, prices non-increasing, equal prices in
+   the order of the bid ids - which makes it unique (Determinism.valid_order_unique) *)
 Fixpoint pick_bids (bs : list bid) (ids : list N) : option (list bid) :=
   match ids with
   | [] => Some []
@@ -152,12 +153,22 @@ Fixpoint prices_desc (bs : list bid) : bool :=
   | [] => true
   | b :: rest => match rest with [] => true | b' :: _ => (b_price b' <=? b_price b) && prices_desc rest end
   end.
+(* within a price level the bids come in the order of their ids: types.BidsByPrice collects the bids of a level in
+   store order, which is the order of the bid ids *)
+Fixpoint ties_by_id (bs : list bid) : bool :=
+  match bs with
+  | [] => true
+  | b :: rest => match rest with
+                 | [] => true
+                 | b' :: _ => (negb (b_price b' =? b_price b) || N.ltb (b_id b) (b_id b')) && ties_by_id rest
+                 end
+  end.
 Fixpoint nodupN (l : list N) : bool :=
   match l with [] => true | x :: r => negb (existsb (N.eqb x) r) && nodupN r end.
 Definition valid_order (bs : list bid) (ids : list N) : option (list bid) :=
   if Nat.eqb (length ids) (length bs) && nodupN ids then
     match pick_bids bs ids with
-    | Some l => if prices_desc l then Some l else None
+    | Some l => if prices_desc l && ties_by_id l then Some l else None
     | None => None
     end
   else None.
